@@ -20,4 +20,4 @@ ASSUMPTIONS = ["to_owned/clone of a full_moon node reproduces its tokens and tri
 def run(ctx):
     return [r_skip.rule_skip_edge(ctx, "C08", statuses=("Skip",)), r_skip.rule_post(ctx, "C08"),
             r_skip.rule_toggle(ctx, "C08"), r_skip.rule_sort_guard(ctx, "C08", must_block=("Skip",)),
-            r_directive.rule_directive(ctx, "C08")]
+            r_directive.rule_directive(ctx, "C08"), r_skip.rule_node_type(ctx, "C08")]
